@@ -164,6 +164,20 @@ CLAIMS = {
         ref="DESIGN.md 5.15",
         note="object identity represented by harness object numbers; C15_block_smooth is C03's BlockSmoothConvex theorem",
         technique="Coq proof (induction over call histories; R^n masks) + model/implementation correspondence"),
+    "C08": dict(
+        text="Coq theorems over the 8 primitive steps TRANSLATED from the sources on every run (one straight-line program per "
+             "option): for every start point, step size, accuracy, function and state the returned tuple, fresh leaves, "
+             "recorded samples (and the function they go to), side constraints and frame are exactly the hand-written "
+             "specification of the documented relation, in both directions (nothing stronger or weaker); real executions "
+             "(prox of a convex function, inexact gradient, exact line search of a differentiable function, linear "
+             "minimisation over a set, Bregman steps, epsilon-subgradient under conjugate attainment) satisfy what is "
+             "recorded, and conversely. Tie: translator + exact correspondence of real step calls with the interpreter.",
+        ref="DESIGN.md 5.8",
+        note="composite functions are outside the Coq model of the steps (C07 covers the distribution); real=>recorded for "
+             "epsilon-subgradient / inexact prox is conditional on conjugate attainment (partial); functions on E are assumed "
+             "to respect veq",
+        technique="Coq proof over programs regenerated from the source (symbolic execution + real analysis lemmas) + "
+                  "correspondence"),
     "C09": dict(
         text="Coq theorems: running any well-formed recorded method (any length) in any world of real oracles makes every "
              "recorded sample genuine and never changes free leaves; with C03 (genuine samples satisfy all class constraints) "
